@@ -829,7 +829,10 @@ def _is_deletion_variant(s, v, seq, indexes):
         it = strip(elem[3])
         if is_call(it, "builtins.enumerate") and strip(it[2][0]) == seq and strip(arg[2]) == ("item", elem, 1) and len(conds) == 1:
             c = strip(conds[0])
-            if head(c) == "cmp" and c[1] == "notin" and strip(c[2]) == ("item", elem, 0) and strip(c[3]) == strip(indexes):
+            coll = strip(c[3]) if head(c) == "cmp" else None
+            while coll is not None and is_call(coll) and head(strip(coll[1])) == "glob" and strip(coll[1])[1] in ("builtins.set", "builtins.frozenset", "builtins.list", "builtins.tuple") and len(coll[2]) == 1:
+                coll = strip(coll[2][0])       # membership in set(indexes) is membership in indexes
+            if head(c) == "cmp" and c[1] == "notin" and strip(c[2]) == ("item", elem, 0) and coll == strip(indexes):
                 return True, "comprehension idiom"
         return None, f"comprehension outside idiom: {show(arg, 80)}"
     # idiom 1: gap-building loop
